@@ -20,7 +20,7 @@ import h5py
 import numpy as np
 import pyarrow as pa
 from astropy.io import fits
-from pyarrow import ArrowException, Table, parquet
+from pyarrow import Table, parquet
 
 from yaw.datachunk import (
     ATTR_ORDER,
@@ -666,14 +666,13 @@ class ParquetReader(FileReader):
         """Keep reading row-groups from the input file until a full chunk can be
         constructed or the end of the file is reached."""
         while self._get_group_cache_size() < self.chunksize:
-            try:
-                next_group = self._file.read_row_group(
-                    self._group_idx, self._columns.values()
-                )
-                self._group_cache.append(next_group)
-                self._group_idx += 1
-            except ArrowException:
+            if self._group_idx >= self._file.num_row_groups:
                 break  # end of file reached before chunk is full
+            next_group = self._file.read_row_group(
+                self._group_idx, self._columns.values()
+            )
+            self._group_cache.append(next_group)
+            self._group_idx += 1
 
     def _extract_chunk(self) -> Table:
         """Extract a data from the row-group cache and return a chunk as a
